@@ -235,6 +235,7 @@ static long FINI_DELTA = 0;
 static void final_check(int order) {
   pid_t p = fork();
   if (p == 0) {
+    alarm(900);
     if (order == 0) { for (int i = nH - 1; i >= 0; i--) if (H[i].alive && H[i].kind == 1) mzd_free(H[i].h); for (int i = 0; i < nH; i++) if (H[i].alive && H[i].kind == 0) mzd_free(H[i].h); for (int i = nstart - 1; i >= 0; i--) if (start_alive[i]) mzd_free(START[i]); }
     else { for (int i = 0; i < nstart; i++) if (start_alive[i]) mzd_free(START[i]); for (int i = 0; i < nH; i++) if (H[i].alive && H[i].kind == 0) mzd_free(H[i].h); for (int i = 0; i < nH; i++) if (H[i].alive && H[i].kind == 1) mzd_free(H[i].h); }
     m4ri_fini();
@@ -281,6 +282,7 @@ static void explore(int depth, uint64_t phash) {
     pid_t p = fork();
     if (p < 0) { fprintf(stderr, "HARNESS-ERROR: fork failed\n"); _exit(2); }
     if (p == 0) {
+      alarm(900); /* a transition that hangs is a finding, not a stuck explorer */
       apply(ops[i]);
       int is_new = 0; uint64_t key = state_key();
       int expand = visit(key, g_depth - (depth + 1), &is_new);
